@@ -504,6 +504,7 @@ pub fn simulate_setup(mut r: Rng, setup: Setup, profile: Profile, oracles: Oracl
     for k in ["drop_iid", "drop_burst", "partition_drop", "duplicate", "reorder", "stalled_arrival", "late_join"] {
         s.faults.touch(k);
     }
+    s.faults.touch("twin_symbols_sent");
     s.faults.touch("duplicate_within_batch");
     s.faults.touch("duplicate_of_completing_delivery");
     let result = run_phases(&mut s, &ks);
@@ -614,6 +615,21 @@ fn run_phases(s: &mut Sim, ks: &[u32]) -> Result<(), Fail> {
             s.emit(Event::Window { replica: rep, sbn: b as u8, s: ws, n: wn })?;
             for i in 0..wn {
                 s.send(Frame { replica: rep, sbn: b as u8, esi: ks[b] + ws + i })?;
+            }
+            if ks[b] <= 420 && s.r.chance(1, 6) {
+                // adversarial redundancy: single-packet requests for both members of a few "twin"
+                // pairs (repair symbols with identical LT rows), so that receivers hold >= K symbols
+                // of deficient rank far more often than chance alone would give
+                let n = s.r.urange(1, 3);
+                let rr = &mut s.r;
+                let pairs = crate::rank::twin_esis(ks[b], n, &mut |m| rr.usize_below(m));
+                for (a, bb) in pairs {
+                    for e in [a, bb] {
+                        s.emit(Event::Window { replica: rep, sbn: b as u8, s: e - ks[b], n: 1 })?;
+                        s.send(Frame { replica: rep, sbn: b as u8, esi: e })?;
+                    }
+                    s.faults.inc("twin_symbols_sent");
+                }
             }
             if s.profile == Profile::C18 && s.r.chance(1, 60) {
                 // an empty window is a legal request
